@@ -113,7 +113,7 @@ class Tr:
         elif k == "DeclStmt":
             for c in n.get("inner", []):
                 ck = c.get("kind")
-                if ck in ("UsingDirectiveDecl", "StaticAssertDecl"):
+                if ck in ("UsingDirectiveDecl", "StaticAssertDecl", "TypeAliasDecl", "TypedefDecl", "UsingDecl"):
                     continue
                 if ck == "VarDecl":
                     name = c.get("name")
